@@ -565,6 +565,10 @@ def make_program(geo: Dict[str, Any], cfg_seed: int, identity: bool = False) -> 
     for nme in order:
         ops.append({"op": "add", "target": nme})
     ops.append({"op": "assemble"})
+    if geo.get("retry"):
+        # the script tries to write, survives whatever happens, and simply writes again (same Mesh,
+        # nothing changed): the verdict of the second attempt must be the verdict of the model
+        ops.append({"op": "try_write", "path": DICT_PATH, "debug": VTK_PATH})
     ops.append({"op": "write", "path": DICT_PATH, "debug": VTK_PATH})
     rewrite = geo.get("rewrite")
     if rewrite is not None:
